@@ -3,7 +3,7 @@ import json, re
 from .. import core
 from . import stackcommon as sc
 
-EMITS = set("S V Q G A P PM R X E B ST CB TXT RACE VR NS STORM STORMA STALL PSPLIT LSPLIT NSI RSC DUPW CHURN SRPMANY".split())
+EMITS = set("S V Q G A P PM R X E B ST CB TXT RACE VR NS STORM STORMA STALL PSPLIT LSPLIT NSI RSC DUPW CHURN HSPLIT SRPMANY".split())
 
 ADV_SETUP = ["wrongcode", "wrongproof", "noproof", "a0", "aN", "a2N", "aempty", "m5first", "start", "m3wrong", "m5zerokey",
              "m5randkey", "badstep", "badmethod", "garbage", "aNforged", "a0forged", "aemptyforged", "wrongcodezero", "m5zeroempty", "m5emptyhkdf"]
@@ -77,6 +77,13 @@ def gen_c01(rng, tier):
     for _ in range(3 if tier == "quick" else 30):
         ops = ["N:h", "S:h:c0:ok", "V:h:c0:ok", "G:h:2.9", "K:h", "N:x", "X:x:accessories:GET", "Q:x", "ST"]
         mk(cases, "carry", ops, {"adv": ["x"]})
+    # what a closed connection had (verification, subscriptions) is gone with it: connections accepted afterwards, which never
+    # verify, receive nothing when the values the closed one had subscribed to change
+    for nsub in (1, 3):
+        subs = ["2.9", "4.14", "3.12"][:nsub]
+        ops = ["N:h", "S:h:c0:ok", "N:v", "V:v:c0:ok"] + ["P:v:%s:-:1" % c for c in subs] + ["G:v:2.9", "K:v", "N:a0", "L:2.9:true", "L:4.14:%s" % sc.num(5), "L:3.12:%s" % sc.num(30), "W", "E:a0",
+               "N:w", "V:w:c0:ok", "P:w:2.9:-:1", "K:w", "N:a1", "N:a2", "L:2.9:false", "W", "E:a1", "E:a2", "E:a0", "X:a0:accessories:GET", "X:a1:characteristics:GET", "CB", "ST"]
+        mk(cases, "after-close", ops, {"adv": ["a0", "a1", "a2"]})
     return cases
 
 
@@ -1065,6 +1072,12 @@ def gen_c13(rng, tier):
             ops = ["N:h", "S:h:c0:ok", "N:x", "V:x:c0:ok", "R:x:odd:%s" % k, "N:q", "V:q:odd:%s" % vv, "K:q",
                    "N:y", "S:y:n2:ok", "N:z", "V:z:n2:ok", "G:z:2.9", "A:z", "P:z:2.9:true:-", "ST", "A:x", "P:x:2.9:false:-"]
             mk(cases, "robust", ops, {"state": "verified"})
+    # directed: a request whose header arrives in two segments, cut 1 .. 4 bytes before its end, then a request with a longer
+    # body on the same connection: both are answered, and the connection still pairs
+    for k in (1, 2, 3, 4):
+        ops = ["N:h", "S:h:c0:ok", "N:x", "HSPLIT:x:%d" % k, "S:x:n1:ok", "S:x:n1:ok", "ST", "V:x:c0:ok", "V:x:c0:ok", "G:x:2.9",
+               "N:y", "S:y:n2:ok", "N:z", "V:z:n2:ok", "G:z:2.9", "A:z", "P:z:2.9:true:-", "ST"]
+        mk(cases, "robust", ops, {"state": "fresh"})
     # directed: peers that never pair keep connections busy while others connect and disconnect in a loop (the accessory's table
     # of connections is used by all of them at once); afterwards the accessory serves
     mk(cases, "robust", ["N:h", "S:h:c0:ok", "CHURN:%d" % (1500 if tier == "quick" else 6000), "N:y", "S:y:n2:ok", "N:z", "V:z:n2:ok", "G:z:2.9", "A:z", "P:z:2.9:true:-", "ST"], {"state": "abandoned"})
@@ -1103,6 +1116,8 @@ def oracle_c13(c, obs):
                 # plaintext sent by the adversary op X on an encrypted connection legitimately ends the connection
                 return "request %s was answered by dropping the connection (handler panic?) instead of an error response: %s" % (op[:60], tok[:60])
     for op, tok in pairs:
+        if op.startswith("HSPLIT:") and tok != "HSPLIT=answered":
+            return "a request whose header arrived in two segments (or the request behind it) was not answered: " + tok
         if op.startswith("RSC:") and not (tok.startswith("RSC=ok") or tok == "RSC=unsupported"):
             return "a peer that reset its connection while its request was handled and connected again from the same port got no answer to a correct pair-setup start (%s)" % tok
     last = dict((o, t) for o, t in pairs)
